@@ -467,6 +467,13 @@ def call_obligation(ctx, rep, world, pr, p, b, bi, t, info, n_site, r32_sinks):
         ok = ra[:1] == ["u8"] and r[1] <= 2 ** 63 - 1
         rep.check(ok, "bounds", p, "with_capacity#%d" % seq, "capacity in [%s,%s] bytes <= isize::MAX" % r, "Vec::with_capacity: capacity [%s,%s] of %s elements is not provably <= isize::MAX bytes" % (r[0], r[1], ra[:1]), b.loc(bi))
         return
+    if name == "std::vec::from_elem" and len(args) == 2:
+        # vec![x; n]: panics iff n elements exceed isize::MAX bytes; decided for byte vectors
+        ra = [fb.ty(a["ty"]).s for a in t.get("resolved_args", []) if "ty" in a]
+        r = pr.rng(args[1], bi)
+        ok = ra[:1] == ["u8"] and r[1] <= 2 ** 63 - 1
+        rep.check(ok, "bounds", p, "vec-from-elem#%d" % seq, "vec![_; n] with n in [%s,%s] bytes <= isize::MAX" % r, "vec![_; n]: n in [%s,%s] of %s elements is not provably <= isize::MAX bytes" % (r[0], r[1], ra[:1]), b.loc(bi))
+        return
     if name == "num_bigint::BigInt::modpow" or ("std::ops::Rem" in name and "num_bigint" in name):
         rep.ok("bigint-precondition", p, "%s#%d" % (short, seq), "wrapper body: preconditions are checked at the formula level (rule bigint-precondition on callers)", b.loc(bi))
         return
